@@ -59,6 +59,7 @@ var specialNames = []string{
 	"Void0", "Void0b", "VoidK0", "VoidK1", "VoidS0", "VoidS4", "VoidScope", "VoidIn", "ErrOnly0", "ErrOnly0b", "ErrOnlyK1", "ErrOnlyS1", "ErrOnlyK2K3",
 	"BIpos_K0", "BIin_K1", "BIpos_K2", "BIin_K3", "BIpos_S0", "BIin_S4", "BIpos_S5", "BIin_S5", "BIdep_S6", "BIkeyedOpt_S7",
 	"Twice_K0", "Twice_S4", "TwiceIn_K2", "InIgn_K0", "InIgn_S4", "RetI_K0", "RetI_K1", "NewDec0", "NewDec1", "NewDec2",
+	"InEmb_K0", "InEmb_S4", "InEmb_K2", "InEmb_S5",
 }
 
 var outGroupNames = []string{"OutG_K0K1", "OutGG_K0"}
